@@ -227,6 +227,8 @@ var loopTableAllowed = map[string]struct {
 	"align.(*seqbag).Deduplicate":    {1, "index of the groups seen so far: the point of the loop"},
 	"align.(*seqbag).TrimNames":      {1, "set of the short names already given"},
 	"align.(*seqbag).rarefySeqBag":   {1, "remaining counts of the draw without replacement"},
+	"cmd.parseGFFFile":               {2, "genes and CDS collected over the lines of the annotation file (thorough tier scope)"},
+	"models.IncompleteGamma":         {1, "coefficients of the continued fraction, shifted at every step (thorough tier scope)"},
 	"distance/dna.selectedSites":     {1, "site mask accumulated over the rows"},
 	"distance/protein.selectedSites": {1, "site mask accumulated over the rows"},
 }
@@ -236,6 +238,9 @@ var loopTableAllowed = map[string]struct {
 // (clear(), or a loop that zeroes every element) at the start of each iteration.
 func (c *Ctx) checkLoopTables(rule string, rels ...string) {
 	L := c.L
+	if c.Thorough() {
+		rels = nil // thorough tier: every package of the module
+	}
 	L.Rule(rule, "a local table that a loop both updates and consults for a decision in the same iteration (per-site counts compared with a threshold, characters already seen in this column) is created inside the loop, or emptied as a whole (clear) before the first update of every iteration; tables that accumulate over the whole loop by design are listed per function with the reason")
 	byFn := map[string][]string{}
 	pos := map[string]string{}
